@@ -28,18 +28,44 @@ def Sptenmat.shapeProp (M : Sptenmat α) : List Nat :=
 
 /-! ### the `tenmat` constructor -/
 
-/-- `tenmat(data, rdims, cdims, tshape)` for an `ndarray` `data` (given by its shape and its
-entries first index fastest), branch by branch:
-* no cell: everything else must be empty too, the component-free object results;
-* 1-d data needs `tshape` and becomes a `1 × n` row;
-* anything but a matrix is refused; `tshape` defaults to the shape of the matrix;
-* the cell counts of matrix and tensor must agree;
+/-- The first branches of the `tenmat` constructor: which matrix the data is.  `none` = the
+component-free branch applies (no cell); otherwise the matrix (a vector needs `tshape` and
+becomes a `1 × n` row, flagged `was_1d`), or a refusal (anything but a vector / matrix). -/
+def Tenmat.dataMatrix (data : Dense α) (tshape : Option (List Nat)) : Except Reject (Dense α × Bool) :=
+  match data.shape with
+  | [n] => match tshape with
+    | none => .error .reject
+    | some _ => .ok (⟨[1, n], data.data⟩, true)
+  | [_, _] => .ok (data, false)
+  | _ => .error .reject
+
+/-- The rest of the `tenmat` constructor (commit 8a75720) once the matrix `d` is known:
+* `tshape` defaults to the shape of the matrix; the cell counts of matrix and tensor must agree;
 * `gather_wrap_dims` (no cyclic convention here; both sides missing is refused);
 * `np.array(tshape)[rdims]` / `[cdims]` refuse a mode `≥ len(tshape)`;
-* the product of the two side sizes must be the cell count of the matrix (this is the code's
-  only test that relates the matrix to the split — it does NOT compare the two extents of the
-  matrix with the two side sizes);
+* `mshape = (prod tshape[rdims], prod tshape[cdims])`; 1-d data whose size fits is reshaped
+  (first index fastest) to `mshape`; a matrix of any other shape is refused;
 * `rdims ++ cdims` must be a permutation of the modes. -/
+def Tenmat.mkCore (d : Dense α) (was1d : Bool) (rdims cdims tshape : Option (List Nat)) :
+    Except Reject (Tenmat α) :=
+  let ts := tshape.getD d.shape
+  if numel d.shape != numel ts then .error .reject
+  else
+    let n := ts.length
+    match gatherWrapDims n rdims cdims none with
+    | .error e => .error e
+    | .ok (r, c) =>
+      if !(r.all (· < n)) || !(c.all (· < n)) then .error .reject
+      else
+        let mshape := [numel (gather ts r), numel (gather ts c)]
+        let d' : Dense α := if was1d && numel mshape == numel d.shape then ⟨mshape, d.data⟩ else d
+        if d'.shape != mshape then .error .reject
+        else if !isPermOf (r ++ c) n then .error .reject
+        else .ok ⟨ts, r, c, d'⟩
+
+/-- `tenmat(data, rdims, cdims, tshape)` for an `ndarray` `data` (given by its shape and its
+entries first index fastest): no cell — everything else must be empty too and the
+component-free object results; otherwise `Tenmat.dataMatrix` then `Tenmat.mkCore`. -/
 def Tenmat.mk? (data : Dense α) (rdims cdims tshape : Option (List Nat)) : Except Reject (Tenmat α) :=
   if numel data.shape == 0 then
     let rEmpty := match rdims with | none => true | some r => r.isEmpty
@@ -47,27 +73,25 @@ def Tenmat.mk? (data : Dense α) (rdims cdims tshape : Option (List Nat)) : Exce
     let tEmpty := match tshape with | none => true | some t => t.isEmpty
     if rEmpty && cEmpty && tEmpty then .ok ⟨[], [], [], ⟨[1, 0], []⟩⟩ else .error .reject
   else
-    let data2? : Except Reject (Dense α) :=
-      match data.shape with
-      | [n] => match tshape with
-        | none => .error .reject
-        | some _ => .ok ⟨[1, n], data.data⟩
-      | [_, _] => .ok data
-      | _ => .error .reject
-    match data2? with
+    match Tenmat.dataMatrix data tshape with
     | .error e => .error e
-    | .ok d =>
-      let ts := tshape.getD d.shape
-      if numel d.shape != numel ts then .error .reject
-      else
-        let n := ts.length
-        match gatherWrapDims n rdims cdims none with
-        | .error e => .error e
-        | .ok (r, c) =>
-          if !(r.all (· < n)) || !(c.all (· < n)) then .error .reject
-          else if numel (gather ts r) * numel (gather ts c) != numel d.shape then .error .reject
-          else if !isPermOf (r ++ c) n then .error .reject
-          else .ok ⟨ts, r, c, d⟩
+    | .ok (d, was1d) => Tenmat.mkCore d was1d rdims cdims tshape
+
+/-- An explicit copy of the constructor's test BEFORE commit 8a75720: the only test relating the
+matrix to the split compared the PRODUCT of the two side sizes with the cell count (kept for the
+pinned counterexample only). -/
+def Tenmat.mkCorePinned (d : Dense α) (rdims cdims tshape : Option (List Nat)) : Except Reject (Tenmat α) :=
+  let ts := tshape.getD d.shape
+  if numel d.shape != numel ts then .error .reject
+  else
+    let n := ts.length
+    match gatherWrapDims n rdims cdims none with
+    | .error e => .error e
+    | .ok (r, c) =>
+      if !(r.all (· < n)) || !(c.all (· < n)) then .error .reject
+      else if numel (gather ts r) * numel (gather ts c) != numel d.shape then .error .reject
+      else if !isPermOf (r ++ c) n then .error .reject
+      else .ok ⟨ts, r, c, d⟩
 
 /-! ### `double()` and `to_tensor()` of every class -/
 
